@@ -61,6 +61,8 @@ class SymCtx:
     self.notes = []
     self.path_choices = []
     self.violated = set()
+    self.trivial = 0
+    self.reached = set()
 
   # ---- inputs ----------------------------------------------------------------------------
   def _decl(self, name, sort):
@@ -180,6 +182,10 @@ class SymCtx:
     c = _bt(c)
     if name in self.violated:
       return False            # already refuted on an earlier instance/path: do not spend solver time
+    if z3.is_true(c):
+      self.trivial += 1       # decided by concrete evaluation on this path (the path condition did the work)
+      self.reached.add(name)
+      return True
     pc = self.ex.pc()
     t0 = time.time()
     r, model = solve.prove(pc, c, self.proof_timeout_ms)
@@ -397,14 +403,15 @@ def run_symbolic(case):
   if status == 'ok':
     if path_exc and not case.get('allow_path_exceptions'):
       status, err = 'path_exception', 'unhandled exception on a path: ' + path_exc[0]
-    elif not ctx.obligations:
+    elif not ctx.obligations and not ctx.trivial:
       status, err = 'harness_error', 'vacuous: no obligation was reached'
     elif ctx.unknown:
       status, err = 'inconclusive', 'solver returned unknown on: %s' % sorted(set(ctx.unknown))[:5]
   return {'case': case['name'], 'status': status, 'error': err, 'paths': len(paths),
           'obligations': ctx.obligations, 'cex': ctx.cex, 'stats': delta,
           'wall_s': round(time.time() - t0, 2), 'inputs': sorted(ctx.inputs)[:60],
-          'notes': ctx.notes[:20], 'path_exceptions': path_exc[:5]}
+          'notes': ctx.notes[:20], 'path_exceptions': path_exc[:5], 'trivial_obligations': ctx.trivial,
+          'obligation_names': sorted(ctx.reached | {o['name'] for o in ctx.obligations})}
 
 
 def run_concrete(case, values=None, seed=0, n=1, tol=None):
